@@ -86,7 +86,7 @@ def setup(d, c):
     return src
 
 
-def parse_trace(text, rel):
+def parse_trace(text, rel, generic=None):
     """`strace -f -o` output (all threads, in the order strace saw the events) -> the calls that concern the
     temporary file / the path: list of (model-call-string, syscall-name, nth-call-of-that-name-in-its-thread,
     completed).  A call that was entered but never returned (killed on entry) is listed with completed=False."""
@@ -147,10 +147,12 @@ def parse_trace(text, rel):
             op = "unlink:path" if ('"%s"' % rel) in args else "unlink:tmp"
         if op:
             ops.append((op, name, nth, done))
+    if generic is not None:
+        generic.extend((r["name"], r["nth"]) for r in recs)
     return ops
 
 
-def run_strace(ctx, xgo, d, rel, inject=None):
+def run_strace(ctx, xgo, d, rel, inject=None, generic=None):
     tr = os.path.join(os.path.dirname(d), "tr.txt")
     if os.path.exists(tr):
         os.remove(tr)
@@ -161,7 +163,7 @@ def run_strace(ctx, xgo, d, rel, inject=None):
     cmd += [xgo, "fmt", rel]
     rc, out = ctx.run(cmd, cwd=(d if "/" not in rel else os.path.dirname(d)), timeout=120,
                       env=dict(os.environ, GOMAXPROCS="1"), mem_kb=16000000)
-    ops = parse_trace(open(tr, errors="replace").read(), rel) if os.path.exists(tr) else []
+    ops = parse_trace(open(tr, errors="replace").read(), rel, generic) if os.path.exists(tr) else []
     return rc, ops
 
 
@@ -189,11 +191,30 @@ def run(ctx):
         rel = c["name"] if c.get("bare") else "dir/" + c["name"]
         # the complete run
         orig = setup(d, c)
-        rc, ops = run_strace(ctx, xgo, d, rel)
+        generic = []
+        rc, ops = run_strace(ctx, xgo, d, rel, generic=generic)
         runs += 1
         st_final, new = state(d, c, orig, None)
-        if rc != 0 or new is None or new == orig or not ops:
+        if rc != 0 or new is None or new == orig or not any(o[0].startswith("create") for o in ops):
             ctx.broken("correspondence(c26:run)", "%s: xgo fmt rc=%d ops=%r state=%s" % (c["id"], rc, ops[:8], st_final))
+            # the expected scheme (temporary file + rename) is not what the binary does: search for a failing crash
+            # point anyway — kill on entry of each of the last calls that can mutate the directory / a file
+            if rc == 0 and new is not None and new != orig:
+                last = {}
+                for nm, nth in generic:
+                    if nm in ("write", "close", "renameat", "renameat2", "rename", "unlinkat", "unlink", "fchmod", "fchmodat", "chmod"):
+                        last.setdefault(nm, []).append(nth)
+                for nm, nths in sorted(last.items()):
+                    for nth in sorted(set(nths))[-4:]:
+                        setup(d, c)
+                        rck, _ = run_strace(ctx, xgo, d, rel, inject=(nm, nth))
+                        runs += 1
+                        s_, _d = state(d, c, orig, new)
+                        if rck != 0 and not (s_.startswith("old:") or s_.startswith("new:")):
+                            ctx.fail("crash:%s:%s#%d" % (c["id"], nm, nth),
+                                     "killed on entry of %s call number %d of its thread: the path is %s" % (nm, nth, s_),
+                                     {"case": c["id"], "state": s_,
+                                      "how": "strace -f -e inject=%s:signal=SIGKILL:when=%d xgo fmt %s" % (nm, nth, rel)})
             continue
         seq = [o[0] for o in ops]
         points = {0: "old:%o" % c["mode"], len(seq): state(d, c, orig, new)[0]}
